@@ -284,7 +284,7 @@ def _relevant(meta, prop, unit=None, name=None):
 KANI_STANDINS = {
     'C19': [
         dict(host='src/local/mod.rs', file='harness_hdr.rs', mod='verif_harness_hdr', harness='header_parse_total', function='Header::parse', kind='complete', tiers=('quick', 'thorough'),
-             label='Header::parse never panics and accepts only complete TZif headers (Kani/CBMC, loop-free, inputs up to 48 bytes: the function reads 44)'),
+             label='Header::parse never panics, returns Ok exactly for complete headers with the TZif magic and version 1/2/3, decodes the version and all six counts as RFC 8536 lays them out (big-endian u32 at 20..44) and consumes exactly 44 bytes (Kani/CBMC, loop-free, every input of up to 48 bytes: the function reads 44)'),
         dict(host='src/local/timezone.rs', file='harness_tzif.rs', mod='verif_harness_tzif', harness='tzif_v1_1_1', function='TimeZone::from_tzif', kind='bounded', tiers=('quick', 'thorough'),
              label='BOUNDED (version-1 file, exactly 1 transition and 1 type, all 15 table bytes symbolic): from_tzif never panics, returns only data that passes validate(), Ok exactly when the type index is 0'),
         dict(host='src/local/timezone.rs', file='harness_tzif.rs', mod='verif_harness_tzif', harness='tzif_v1_1_0', function='TimeZone::from_tzif', kind='bounded', tiers=('quick', 'thorough'),
@@ -293,6 +293,8 @@ KANI_STANDINS = {
              label='BOUNDED (version-1 file, 0 transitions, 1 type, table bytes symbolic): from_tzif accepts the file without a panic'),
     ],
     'C18': [
+        dict(host='src/local/mod.rs', file='harness_hdr.rs', mod='verif_harness_hdr', harness='header_parse_total', function='Header::parse', kind='complete', tiers=('quick', 'thorough'),
+             label='Header::parse decodes the version and all six counts as RFC 8536 lays them out and consumes exactly 44 bytes (Kani/CBMC, loop-free, every input of up to 48 bytes)'),
         dict(host='src/local/timezone.rs', file='harness_tzif.rs', mod='verif_harness_tzif', harness='tzif_v1_1_1', function='TimeZone::from_tzif', kind='bounded', tiers=('quick', 'thorough'),
              label='BOUNDED (version-1 file, exactly 1 transition and 1 type, all 15 table bytes symbolic): the decoded transition time, type index and utoff are the big-endian values of the bytes'),
         dict(host='src/local/timezone.rs', file='harness_tzif.rs', mod='verif_harness_tzif', harness='tzif_v1_0_1', function='TimeZone::from_tzif', kind='bounded', tiers=('quick', 'thorough'),
